@@ -1,0 +1,12 @@
+//go:build verif
+
+package inode
+
+// VerifBlks returns a copy of the inode's block pointers (build tag verif).
+func (ip *Inode) VerifBlks() []uint64 {
+	r := make([]uint64, len(ip.blks))
+	for i, b := range ip.blks {
+		r[i] = uint64(b)
+	}
+	return r
+}
